@@ -46,10 +46,10 @@ from vf.mon import audit as auditmod
 
 ID = "C29"
 LEVEL = "exploration"
-RULE = ("case = (temp, clean, filed, extensioned) x op script (16 scripts: reopen/reuse/clear/close, and reopen flipping temp or changing headDirPath with/without clear) x name (plain, nested a/b, "
+RULE = ("case = (temp, clean, filed, extensioned) x op script (19 scripts: reopen/reuse/clear/close, and reopen flipping temp or changing headDirPath with/without clear) x name (plain, nested a/b, "
         "dotted a.b, ./x, x/../y, '../'*k+e for k=1..5; each with and without an extension) x base ('', plain, nested, dotted, ./b, "
         "b/../c, '../'*k for k=1..5) x prior state at the path (none / left by a directory Filer / left by a file Filer) x head "
-        "(usable / blocked so the alt head is used). quick: the full product flags x names x bases (script, prior, head drawn from the "
+        "(usable / blocked so the alt head is used / relative with a chdir after opening). quick: the full product flags x names x bases (script, prior, head drawn from the "
         "seed) plus flags x scripts x 6 representative name/base pairs; thorough: the full product flags x scripts x names x bases, the non-temp half with two of the six "
         "(prior, head) combinations each, rotating with the seed. Non-trivial = the Filer created at least one "
         "filesystem object and removed at least one; distinct = by all case fields.")
@@ -71,10 +71,12 @@ REQUIRE = {"windows_judged": 5000, "audit_events_judged": 10000, "snapshot_diff_
            "flip_reopens_judged": 300, "flip_to_temp_clear_of_persistent_file_path_with_neighbour": 40,
            "head_change_reopens_judged": 100, "reopen_clear_on_closed_filer_judged": 100,
            "reopen_clear_old_entries_checked": 800, "temp_clean_cases_with_persistent_twin": 150,
-           "openfiler_contexts_entered": 60}
+           "openfiler_contexts_entered": 60, "nonclear_closes_judged": 300, "path_absolute_checks": 1500,
+           "relative_head_cases_opened": 80, "decoys_planted": 60,
+           "openfiler_exits_judged:temp:flag-changed-inside": 20, "openfiler_exits_judged:persistent:flag-changed-inside": 20}
 EXHAUSTIVE = {"quick": "flags(16) x names(20) x bases(11) = 3520 configurations (op script, prior state, head mode seeded) "
-                       "+ flags(16) x op scripts(16) x 6 name/base pairs = 1536",
-              "thorough": "flags(16) x op scripts(16) x names(20) x bases(11) = 56320 configurations; not temp: 2 of the 6 (prior, head mode) "
+                       "+ flags(16) x op scripts(19) x 6 name/base pairs = 1824",
+              "thorough": "flags(16) x op scripts(19) x names(20) x bases(11) = 66880 configurations; not temp: 2 of the 9 (prior, head mode) "
                           "combinations for the 7 core scripts, 1 otherwise (rotating with the seed); temp: a persistent twin of "
                           "both kinds when clean, one rotating kind otherwise; names that climb out of their directory only with the scripts clear and lazy-clear"}
 
@@ -107,11 +109,15 @@ SCRIPTS = {
     "close-reclear-clear": [["close", {}], ["reopen", {"clear": True}], ["close", {"clear": True}]],
     "close-reusereclear-clear": [["close", {}], ["reopen", {"reuse": True, "clear": True}], ["close", {"clear": True}]],
     # the context manager: with openFiler(cls=..., temp=..., clean=...) as filer: ...   (exit closes with clear=filer.temp)
-    "openfiler": [["ctx"]],
+    "openfiler": [["ctx", {}], ["ctx-exit"]],
+    # ... and reopen(temp=...) inside the with block: the exit must go by the Filer's temp flag, not by the argument
+    "openfiler-flip": [["ctx", {}], ["reopen", {"temp": "flip"}], ["ctx-exit"]],
+    "openfiler-flip-clear": [["ctx", {}], ["reopen", {"temp": "flip", "clear": True}], ["ctx-exit"]],
+    "openfiler-lazy-flip": [["ctx", {"reopen": False}], ["reopen", {"temp": "flip"}], ["ctx-exit"]],
 }
 CORE_SCRIPTS = ["clear", "reuse-clear", "reclear-clear", "reuseclear-clear", "close-reopen-clear", "lazy-clear", "keep"]
 PRIORS = ["none", "dir", "file"]
-HEADS = ["ok", "blocked"]
+HEADS = ["ok", "blocked", "relative"]     # relative: HeadDirPath = "head" resolved against the cwd, which the case changes after opening
 
 
 # six representative (name, base) pairs that get every op script in the quick tier
@@ -120,8 +126,8 @@ QUICK_PAIRS = [("x", ""), ("a/b", "p/q"), ("x/../y.dat", "./b"), ("../e", "bs"),
 
 def cases(tier, seed, shard, nshards):
     """quick:    flags x names x bases, op script / prior / head mode drawn from the seed   (3520 configurations)
-                 + flags x op scripts x QUICK_PAIRS, prior / head mode drawn from the seed    (1536)
-       thorough: flags x op scripts x names x bases (56320 configurations); not temp: two (core scripts) or one of the six
+                 + flags x op scripts x QUICK_PAIRS, prior / head mode drawn from the seed    (1824)
+       thorough: flags x op scripts x names x bases (66880 configurations); not temp: two (core scripts) or one of the nine
                  (prior, head mode) combinations, rotating with the configuration index and the seed; temp: a persistent
                  twin at the same base/name of both kinds when clean, of one rotating kind (or none) otherwise"""
     flags = list(itertools.product([False, True], repeat=4))
@@ -132,7 +138,7 @@ def cases(tier, seed, shard, nshards):
         rng = random.Random(f"{seed}:C29:{tier}:{n}")       # per configuration, independent of the sharding
         if temp:                       # a persistent resource of the same base/name may exist next to a temp Filer
             return rng, rng.choice(PRIORS), "ok"
-        return rng, rng.choice(PRIORS), rng.choice(["ok", "ok", "blocked"])
+        return rng, rng.choice(PRIORS), rng.choice(["ok", "ok", "blocked", "relative"])
 
     def mk(fl, script, name, base, prior, head):
         return {"temp": fl[0], "clean": fl[1], "filed": fl[2], "extensioned": fl[3], "script": script,
@@ -166,8 +172,8 @@ def cases(tier, seed, shard, nshards):
             else:
                 yield mk(fl, script, name, base, PRIORS[(n + seed) % 3], "ok")
         else:                                   # (prior, head) combinations rotating with n and the seed:
-            for j in ((0, 3) if script in CORE_SCRIPTS else (0,)):      # two of the six for the core scripts, one otherwise
-                prior, head = combos[(n + seed + j) % 6]
+            for j in ((0, 4) if script in CORE_SCRIPTS else (0,)):      # two of the nine for the core scripts, one otherwise
+                prior, head = combos[(n + seed + j) % 9]
                 yield mk(fl, script, name, base, prior, head)
 
 
@@ -199,7 +205,8 @@ class Box:
         self.blockedhead = os.path.join(blocker, "head")
         self.head = self.okhead if head_mode == "ok" else self.blockedhead
         self.head2 = os.path.join(deep, "head2")
-        for d in (self.okhead, self.alt, self.tmp, self.sib, os.path.join(self.sib, "sub"), self.head2):
+        self.cwd2 = os.path.join(deep, "cwd2")      # the working directory a "relative head" case moves to after opening
+        for d in (self.okhead, self.alt, self.tmp, self.sib, os.path.join(self.sib, "sub"), self.head2, self.cwd2):
             os.mkdir(d)
         for p in ("alt/alt-sentinel.txt", "tmp/tmp-sentinel.txt", "sib/s1.txt", "sib/sub/s2.txt"):
             self._sentinel(os.path.join(deep, p))
@@ -261,6 +268,7 @@ class Judge:
         self.last = None            # snapshot after the previous window, valid while the harness itself wrote nothing
         self.tb = self.ta = bool(case["temp"])   # the Filer's temp flag before / after the call being judged (reopen may flip it)
         self.extra_heads = []       # a head directory passed to reopen(headDirPath=...)
+        self.own_abs = None         # absolute location of the Filer's resource, resolved when it was (re)made
         self.neighbours = set()     # files planted next to the Filer's path: entries of the same directory that are not its own
 
     def heads(self):
@@ -326,7 +334,7 @@ class Judge:
         ctx, box = self.ctx, self.box
         before = self.last if self.last is not None else auditmod.snapshot(box.root)
         ctx.count("snapshots_taken", 1 if self.last is None else 0)
-        own_path = filer.path if filer is not None else None
+        own_path = (self.own_abs or filer.path) if filer is not None else None
         own_temp = list(self.tempdirs)
         self.tb = self.ta = bool(filer.temp) if filer is not None else bool(self.case["temp"])
         if as_temp is not None:                 # the persistent twin planted before a temp Filer runs
@@ -425,6 +433,16 @@ class Judge:
                                   f"(flags={self.flags()} name={self.case['name']!r} base={self.case['base']!r} "
                                   f"script={self.case['script']} temp before/after={self.tb}/{self.ta})")
                     break
+        elif phase == "close":
+            # O5: a close without clear removes nothing at all
+            ctx.count("nonclear_closes_judged")
+            gone = [(p, "snapshot diff") for p in removed] + \
+                   [(p, f"audit {e}") for v, p, e, _ in log.events if v in ("remove", "remove-tree")]
+            if gone:
+                p0, source = gone[0]
+                ctx.violation(self.key("close-without-clear-removed-entries"),
+                              f"{source}: {self.short(p0)} removed by a close that was not to clear (own path "
+                              f"{self.short(str(own_path))}, temp={self.tb}, flags={self.flags()} script={self.case['script']})")
         elif removed:
             inside = [p for p in removed if p in box.sentinel_set]
             if inside:
@@ -443,7 +461,7 @@ def setup(ctx):
 def static_safe(case, box):
     """refuse to run a case whose lexical target could leave the disposable tree (cannot happen with DEPTH=12)"""
     name = case["name"] + ".text"
-    for root in (box.head, box.alt, box.head2, os.path.join(box.tmp, "hio_XXXXXXXX_test")):
+    for root in (box.head, box.alt, box.head2, os.path.join(box.cwd2, "head"), os.path.join(box.tmp, "hio_XXXXXXXX_test")):
         for tail in ("hio", "hio/clean", ".hio", ".hio/clean"):
             p = os.path.normpath(os.path.join(root, tail, case["base"], name))
             top = os.path.dirname(os.path.dirname(os.path.dirname(p)))
@@ -506,9 +524,13 @@ def run_case(case, ctx):
     if AUDIT is None:
         setup(ctx)
     box, first = get_box(ctx)
-    box.head = box.okhead if case["head"] == "ok" else box.blockedhead
+    box.head = box.blockedhead if case["head"] == "blocked" else box.okhead
+    cwd0 = os.getcwd()
     try:
-        _run(case, ctx, box, first)
+        try:
+            _run(case, ctx, box, first)
+        finally:
+            os.chdir(cwd0)                  # "relative head" cases change the working directory (inside the box only)
     except BaseException:
         box.destroy()
         raise
@@ -518,8 +540,11 @@ def run_case(case, ctx):
 def _run(case, ctx, box, first):
     if not static_safe(case, box):
         raise AssertionError(f"case could climb out of the disposable tree: {case}")
-    Sand = type("SandFiler", (filing.Filer,), {"HeadDirPath": box.head, "AltHeadDirPath": box.alt,
-                                                "TempHeadDir": box.tmp})
+    relative = case["head"] == "relative"
+    if relative:
+        os.chdir(box.deep)                  # "head" resolves to <box>/head while the Filer is opened
+    Sand = type("SandFiler", (filing.Filer,), {"HeadDirPath": "head" if relative else box.head,
+                                                "AltHeadDirPath": box.alt, "TempHeadDir": box.tmp})
     tail = Sand.CleanTailDirPath if case["clean"] else Sand.TailDirPath
     ename = case["name"]
     if (case["filed"] or case["extensioned"]) and not os.path.splitext(ename)[1]:
@@ -560,7 +585,8 @@ def _run(case, ctx, box, first):
     lazy = first_op == "lazy"
     cm = None
     if first_op == "ctx":
-        cm = filing.openFiler(cls=Sand, filed=case["filed"], extensioned=case["extensioned"], **kw)
+        cm = filing.openFiler(cls=Sand, filed=case["filed"], extensioned=case["extensioned"],
+                              **dict(kw, **SCRIPTS[case["script"]][0][1]))
         ok, filer = judge.window("open", cm.__enter__)
         ctx.count("openfiler_contexts_entered")
     else:
@@ -572,9 +598,40 @@ def _run(case, ctx, box, first):
     ctx.count("cases_opened")
     if case["temp"]:
         ctx.count("cases_temp")
+
+    def located():
+        """.path must be absolute; remember where the resource is, resolved now (the cwd may change later)"""
+        if filer.path:
+            ctx.count("path_absolute_checks")
+            if not os.path.isabs(filer.path):
+                ctx.violation(judge.key("path-not-absolute"),
+                              f".path = {filer.path!r} is not absolute (HeadDirPath={Sand.HeadDirPath!r}, flags={judge.flags()})")
+            judge.own_abs = os.path.abspath(filer.path)
+        else:
+            judge.own_abs = None
+
+    located()
+    if relative:
+        ctx.count("relative_head_cases_opened")
+        # a same-shaped tree under the directory the case is about to move to: must not be mistaken for the Filer's own
+        if judge.own_abs and rel_to(judge.own_abs, box.deep) == "in" and not case["temp"]:
+            decoy = os.path.join(box.cwd2, os.path.relpath(judge.own_abs, box.deep))
+            if os.path.isdir(judge.own_abs):
+                os.makedirs(decoy, exist_ok=True)
+                made = os.path.join(decoy, "data.mdb")
+            else:
+                os.makedirs(os.path.dirname(decoy), exist_ok=True)
+                made = decoy
+            with open(made, "w") as f:
+                f.write("decoy under the new cwd")
+            judge.neighbours.add(made)
+            judge.last = None
+            ctx.count("decoys_planted")
+        os.chdir(box.cwd2)
+        ctx.count("chdir_between_open_and_close")
     steps = []
     for op in SCRIPTS[case["script"]]:
-        if op[0] == "lazy":
+        if op[0] in ("lazy", "ctx"):
             continue
         if filer.path and rel_to(filer.path, box.alt) != "out":
             judge.alt_used = True
@@ -602,18 +659,21 @@ def _run(case, ctx, box, first):
                 judge.neighbours.add(nb)
                 judge.last = None
                 ctx.count("neighbours_planted")
-        if op[0] == "ctx":
+        if op[0] == "ctx-exit":
             clearing = bool(filer.temp)
+            ctx.count("openfiler_exits_judged:" + ("temp" if clearing else "persistent")
+                      + (":flag-changed-inside" if bool(filer.temp) != bool(case["temp"]) else ""))
             ok, res = judge.window("close", lambda: cm.__exit__(None, None, None), filer=filer, clearing=clearing)
             if ok and clearing:
                 ctx.count("clear_path_gone_checks")
-                if filer.path and os.path.lexists(filer.path):
+                if judge.own_abs and os.path.lexists(judge.own_abs):
                     ctx.violation(judge.key("clear-left-own-path-behind"),
-                                  f"after leaving openFiler(temp=True) {judge.short(filer.path)} still exists (flags={judge.flags()})")
+                                  f"after leaving openFiler with a temp Filer {judge.short(judge.own_abs)} still exists "
+                                  f"(flags={judge.flags()} script={case['script']})")
             steps.append(["ctx-exit", {"clear": clearing}, "ok" if ok else type(res).__name__])
             break
         kwargs = dict(op[1])
-        old_path, was_opened = filer.path, bool(filer.opened)
+        old_path, was_opened = judge.own_abs, bool(filer.opened)
         if kwargs.get("temp") == "flip":
             kwargs["temp"] = not filer.temp
             ctx.count("flip_reopens_judged")
@@ -627,14 +687,19 @@ def _run(case, ctx, box, first):
             ctx.count("head_change_reopens_judged")
         if op[0] == "reopen":
             kwargs["clean"] = case["clean"]
+            if relative and os.path.join(box.cwd2, "head") not in judge.extra_heads:
+                # a remake resolves the relative head against the cwd of that moment: from now on the Filer lives there
+                judge.extra_heads = judge.extra_heads + [os.path.join(box.cwd2, "head")]
             ok, res = judge.window("reopen", lambda: filer.reopen(**kwargs), filer=filer,
                                    clearing=bool(kwargs.get("clear")))
+            if ok:
+                located()
             if ok and kwargs.get("clear") and old_path:
                 # O4: reopen(clear=True) clears what was at the path before, also when the Filer had been closed before
                 ctx.count("reopen_clear_old_content_judged")
                 if not was_opened:
                     ctx.count("reopen_clear_on_closed_filer_judged")
-                same_place = filer.path == old_path
+                same_place = judge.own_abs == old_path
                 b4, aft = judge.win_before, judge.win_after
                 for p in [q for q in b4 if rel_to(q, old_path) != "out"]:
                     ctx.count("reopen_clear_old_entries_checked")
@@ -653,10 +718,10 @@ def _run(case, ctx, box, first):
             if ok and kwargs.get("clear"):
                 # O3
                 ctx.count("clear_path_gone_checks")
-                if filer.path and os.path.lexists(filer.path):
+                if judge.own_abs and os.path.lexists(judge.own_abs):
                     ctx.violation(judge.key("clear-left-own-path-behind"),
-                                  f"after close(clear=True) {judge.short(filer.path)} still exists (flags={judge.flags()} "
-                                  f"name={case['name']!r} base={case['base']!r})")
+                                  f"after close(clear=True) {judge.short(judge.own_abs)} still exists (flags={judge.flags()} "
+                                  f"name={case['name']!r} base={case['base']!r} head={case['head']})")
                 if filer.temp:
                     left = [t for t in judge.tempdirs if os.path.lexists(t)]
                     ctx.count("temp_dir_left_after_clear" if left else "temp_dir_gone_after_clear")
